@@ -803,7 +803,7 @@ fn main() {
     let args = parse_args();
     let mut run = Runner::new("C19", &args.tier, "model_checking");
     let thorough = run.thorough();
-    let (pd, cd) = if thorough { (3, 4) } else { (3, 3) };
+    let (pd, cd) = if thorough { (4, 4) } else { (3, 3) };
     let mut jobs: Vec<Job> = vec![Job::Bloom(3, 2), Job::Bloom(4, 1), Job::Bloom(4, 2), Job::Cuckoo(vec![1, 0, 1], Some(2)), Job::Cuckoo(vec![0, 0, 0], Some(2)), Job::Cuckoo(vec![1, 1, 1], None), Job::Qf(2, 1), Job::Qf(2, 2),
         Job::Cms(2, 2, "u8"), Job::Cms(3, 2, "u64"), Job::Cms(2, 3, "usize"), Job::Hll(4), Job::Hll(9), Job::Hll(18), Job::Res(1), Job::Res(2), Job::Res(3)];
     for kind in 0..4 {
